@@ -6,7 +6,7 @@ from datetime import datetime
 from enum import Enum
 from typing import Optional
 
-from pydantic import BaseModel, Field
+from pydantic import BaseModel, ConfigDict, Field
 
 from workflows.events import Event, HumanResponseEvent, InputRequiredEvent, StartEvent, StopEvent
 
@@ -56,11 +56,46 @@ class AnswerEv(HumanResponseEvent):
     answer: str = ""
 
 
+class AliasEv(Event):
+    """Typed fields that declare a serialization alias (camelCase on the wire)."""
+
+    step_label: str = Field(default="", serialization_alias="stepLabel")
+    percent_done: int = Field(default=0, serialization_alias="percentDone")
+
+
+class AliasStop(StopEvent):
+    """A typed field with a validation+serialization alias, constructible by name."""
+
+    model_config = ConfigDict(populate_by_name=True)
+    total_count: int = Field(default=0, alias="totalCount")
+
+
+class AliasInner(BaseModel):
+    model_config = ConfigDict(populate_by_name=True)
+    item_count: int = Field(default=0, alias="itemCount")
+
+
+class NestedAliasEv(Event):
+    """A nested plain model whose field has an alias."""
+
+    inner: AliasInner = Field(default_factory=AliasInner)
+
+
+class StrictAliasInner(BaseModel):
+    """A plain model whose field can only be populated through its alias (no populate_by_name): the usual shape of an SDK/API model."""
+
+    item_count: int = Field(default=0, alias="itemCount")
+
+
+class StrictNestedAliasEv(Event):
+    inner: StrictAliasInner = Field(default_factory=StrictAliasInner)
+
+
 class HarnessError(Exception):
     pass
 
 
-EVENTS = {c.__name__: c for c in [TypedEv, PlainEv, MyStart, TypedStop, AskEv, AnswerEv]}
+EVENTS = {c.__name__: c for c in [TypedEv, PlainEv, MyStart, TypedStop, AskEv, AnswerEv, AliasEv, AliasStop, NestedAliasEv, StrictNestedAliasEv]}
 EVENTS["Event"] = Event
 EVENTS["StopEvent"] = StopEvent
 EVENTS["StartEvent"] = StartEvent
